@@ -126,6 +126,16 @@ func checkC12(ck *Check) {
 	// R5 containment
 	ck.loopContainment("C12.R5")
 	ck.fatalErrorCreation("C12.R5")
+	// a panic in one group's scan unwinds RunOnce: no later group is processed. The panic sites of
+	// the scan-reachable code (decided as C20.R1/R2/R7/R8) are obligations of containment too.
+	ck.relabel = func(r string) string {
+		if strings.HasPrefix(r, "C20.") {
+			return "C12.R5"
+		}
+		return r
+	}
+	ck.panicSites(func(int) string { return "C12.R5" }, ck.scanFunctions())
+	ck.relabel = nil
 	// R6
 	ck.actionTargets("C12.R6")
 	// R7 the per-group filters select exactly the group's own pods and nodes (decided as C14)
